@@ -171,3 +171,42 @@ def abstract_in(s):
                 m = intern(key); q, pid = first.get(m, (9, 0))
                 toks.append(f"d:{q}:{pid}:{m}")
     return toks, None
+
+
+def abstract_content(s):
+    """content side (lean/Mqtt5V/Model/TraceContent.lean):  i:<op>:<c>  API call with content c      r:<op>:<c>  a PUBLISH of op on the wire says c.
+    The content of a publish = (topic, payload, QoS, retain, canonical properties), taken once from the arguments of the API call and once
+    from the decoded wire packet (the operation is identified by the name at the start of its payload)."""
+    intern = Interner(); opnum = {}
+    def num(name):
+        if name not in opnum: opnum[name] = len(opnum) + 1
+        return opnum[name]
+    toks = []
+    ops_by_tag = {}
+    for line, evs, st, t in s.tr:
+        ws = line.split()
+        if not ws or evs == ["<crash>"] or evs == ["<bad-op>"]: break
+        if ws[0] == "pub":
+            o = s.ops.get(ws[1])
+            if o is not None:
+                c = intern(("pub", o.topic, o.payload, o.qos, o.retain, repr(sorted(M.canon_props(o.props).items(), key=repr))))
+                toks.append(f"i:{num(o.name)}:{c}"); ops_by_tag[o.payload.split(b":")[0]] = o
+        elif ws[0] == "pubn":
+            for i in range(1, int(ws[2]) + 1):
+                name = ws[1] + str(i)
+                c = intern(("pub", b"t", name.encode(), int(ws[3]), 0, repr([])))
+                toks.append(f"i:{num(name)}:{c}")
+                class _O: pass
+                o = _O(); o.name = name; ops_by_tag[name.encode()] = o
+        for e in evs:
+            es = e.split()
+            if es[0] != "wr": continue
+            for hx in es[2:]:
+                raw = bytes.fromhex(hx) if hx != "-" else b""
+                if not raw or raw[0] & 0xF0 != 0x30: continue
+                try: d = ref.decode(raw)
+                except ref.Malformed: continue          # C17's own monitor reports packets the reference decoder rejects
+                o = ops_by_tag.get(d["payload"].split(b":")[0])
+                c = intern(("pub", d["topic"], d["payload"], d["qos"], d["retain"], repr(sorted(M.canon_props(d["props"]).items(), key=repr))))
+                toks.append(f"r:{num(o.name) if o else 0}:{c}")
+    return toks, None
